@@ -1,11 +1,13 @@
 import Pywbem.Model.CimJson
 import Pywbem.Model.ListenerHttp
+import Pywbem.Model.XmlParse
 open Lean Pywbem.Proto Pywbem.Model Pywbem.Model.CimJson Pywbem.Model.XmlText Pywbem.Model.ListenerHttp
 
 /-! C17 driver.  One input line = one listener history:
   {"cap":n, "cfg":{"validateLen":b,"encodeDetails":b,"catchAll":b}?, "events":[ev,…]}
   ev = {"ev":"deliver"}
      | {"ev":"req","method":cps,"headers":[[cps,cps],…],"blen":n,          octets sent after the header section
+        "xmlmode":"par","hex":"…"   the request parser is the model's own parseBytes on the real octets (else:)
         "k":n,"tree":tt|null,       expat+CIMContentHandler result for the first k octets (null = SAX error,
         "xmlexc":name|null,           or with xmlexc: that exception class escaped from xml.sax)
         "msg":cps,                  str(exc) of the XMLParseError / CIMXMLParseError, if any
@@ -14,6 +16,7 @@ open Lean Pywbem.Proto Pywbem.Model Pywbem.Model.CimJson Pywbem.Model.XmlText Py
         "foreign":name|null, "alloc":n, "exctext":cps}
   Output: {"obs":[o,…],"queue":[cps],"accepted":[cps],"delivered":[cps]}  (message ids)
   o = {"rsp":{"status":n,"reason":cps,"headers":[[cps,cps],…],"body":cps},"nread":n|null,
+       "bodytree":tt|null   XmlParse.par of the 200 body (what a receiver's XML parser reads),
        "wire":cps}     header section as written to the socket, with the "server"/"date" values of the event
     | {"stdlib":true} | {"dropped":name} | null
   Other ops: {"op":"ascii2","s":cps} {"op":"quote","s":cps} {"op":"tokq","s":cps} {"op":"tokc","s":cps}
@@ -71,19 +74,29 @@ def envOfJson (j : Json) : Env :=
       fun t => match tab.find? (fun e => e.1 == (xmlToJson t).compress) with
         | some e => excOf e.2
         | none => shared t
-  { xmlParse := fun bs => if bs.length == k then tree else .ok missing,
+  { xmlParse := if getStr j "xmlmode" == some "par" then parseBytes
+      else fun bs => if bs.length == k then tree else .ok missing,
     parserMsg := (getChars j "msg").getD [],
     instParse := instP,
     foreign := fun _ => (getStr j "foreign").map (fun n => (⟨n⟩ : Exc)),
     allocLimit := (getNat j "alloc").getD (2 ^ 40),
     excText := fun _ => (getChars j "exctext").getD [] }
 
+def hexNib (c : Char) : Nat :=
+  if '0' ≤ c ∧ c ≤ '9' then c.toNat - 48 else if 'a' ≤ c ∧ c ≤ 'f' then c.toNat - 87 else 0
+
+def hexBytes : List Char → List Nat
+  | a :: b :: rest => (16 * hexNib a + hexNib b) :: hexBytes rest
+  | _ => []
+
 def reqOfJson (j : Json) : Req :=
   { method := (getChars j "method").getD [],
     headers := (getArr j "headers").filterMap (fun kv => match kv with
       | .arr a => some ((jsonToChars? (a[0]!)).getD [], (jsonToChars? (a[1]!)).getD [])
       | _ => none),
-    body := List.replicate ((getNat j "blen").getD 0) 0 }
+    body := match getStr j "hex" with
+      | some h => hexBytes h.toList                       -- "xmlmode":"par": the real octets
+      | none => List.replicate ((getNat j "blen").getD 0) 0 }
 
 def cfgOfJson (j : Json) : Cfg :=
   match getField j "cfg" with
@@ -113,6 +126,7 @@ def runHist (cfg : Cfg) : LState → List Json → List Json → LState × List 
       let (s', o) := step cfg s (.request E r)
       let oj := match o with
         | .response rsp => Json.mkObj [("rsp", rspJ rsp),
+            ("bodytree", if rsp.status == 200 then optToJson xmlToJson (Pywbem.Model.XmlParse.par rsp.body) else Json.null),
             ("wire", cpsToJson (wireHead ((getChars e "server").getD []) ((getChars e "date").getD []) rsp)),
             ("nread", if r.method = "POST".toList then optToJson (fun (n : Nat) => (n : Json)) (bytesRead cfg E r) else Json.null)]
         | .stdlib => Json.mkObj [("stdlib", true)]
@@ -132,6 +146,7 @@ def handleJ (j : Json) : Json :=
     let s := (getChars j "s").getD []
     Json.mkObj [("out", Json.arr ((tokensC (s.length + 1) s).map (fun p => Json.arr #[cpsToJson p.1, cpsToJson p.2])).toArray),
                 ("ok", contentTypeOk s)]
+  | some "utf8" => Json.mkObj [("out", optToJson cpsToJson (utf8Decode (hexBytes ((getStr j "hex").getD "").toList)))]
   | some "int" => Json.mkObj [("out", optToJson intToJson (pyInt ((getChars j "s").getD [])))]
   | _ =>
     let cfg := cfgOfJson j
